@@ -4,23 +4,6 @@ From Srtla Require Import Base Constants FConstants Select Run_Sel Run_C03 SelFl
 Import ListNotations.
 Local Open Scope Z_scope.
 
-Lemma forallb_wfl s : forallb wf_linkb s = true <-> Forall wfl s.
-Proof. rewrite forallb_forall, Forall_forall. reflexivity. Qed.
-
-Lemma set_hids_track s s' : Forall2 link_rel s s' -> set_hids s (map hid_of s') = s'.
-Proof.
-  induction 1 as [|c c' l l' (P & _) H IH]; [reflexivity|].
-  cbn [map set_hids]. rewrite IH. f_equal. apply set_hid_of_pv_eq. now symmetry.
-Qed.
-
-Lemma upd_nth_wf s i l : Forall wfl s -> wf_pubb l = true -> Forall wfl (upd_nth s i l).
-Proof.
-  intros H Hl. revert i. induction H as [|c t Hc Ht IH]; intros i; [destruct i; constructor|].
-  destruct i; cbn [upd_nth]; constructor; auto.
-  unfold wfl, wf_linkb in *. apply andb_true_iff in Hc. destruct Hc as (_ & Hq).
-  apply andb_true_iff. split; [exact Hl | exact Hq].
-Qed.
-
 (** the monitor accepts a model select from any well-formed state *)
 Lemma mon_select_model s last now cfg exps :
   Forall wfl s -> forallb exp_okb exps = true ->
@@ -33,18 +16,6 @@ Proof.
   destruct (select_no_blackout s last now cfg exps Hwf He U) as (i & Ei & Hi).
   rewrite E in Ei. cbn [fst] in Ei. subst r.
   apply Nat.ltb_lt in Hi. now rewrite Hi.
-Qed.
-
-Lemma model_select_state s last now cfg exps :
-  forallb exp_okb exps = true ->
-  let '(o, s') := model_select s last now cfg exps in
-  set_hids s (o_hid o) = s' /\ (Forall wfl s -> Forall wfl s').
-Proof.
-  intros He. unfold model_select.
-  pose proof (select_rel s last now cfg exps He) as R.
-  pose proof (select_wf s last now cfg exps He) as W.
-  destruct (select s last now cfg exps) as (r, s'). cbn [snd o_hid] in *.
-  split; [now apply set_hids_track | exact W].
 Qed.
 
 Lemma run_from_ok : forall ops s i,
